@@ -61,7 +61,7 @@ def run_checks(pid, d, tiers=('quick',)):
         rc, o = sh(['git', 'apply', os.path.join(d, 'patch.diff')], cwd=scratch)
         if rc != 0:
             return dict(error='patch does not apply: ' + o[-400:])
-        env = dict(os.environ, VERIF_REPO=scratch)
+        env = dict(os.environ, VERIF_REPO=scratch, VERIF_EVIDENCE_DIR=os.path.join(scratch, '.verif-evidence'))
         for tier in tiers:
             t0 = time.time()
             rc, o = sh([os.path.join(VERIF, 'check'), pid, '--tier', tier], cwd=VERIF, env=env, timeout=7200)
